@@ -606,6 +606,12 @@ example : StatsGen.wcoefRes (0.4:ℝ) (1000000 * 4) = 0.15 / 1000000 := by
 example : ∃ v : ℝ, StatsGen.m0 .aposteriori (10:ℝ) 9 1 = .ok v ∧ v ^ 2 * ((1:ℤ):ℝ) = 9 := by
   obtain ⟨v, h1, -, h3, -⟩ := C09_m0_guard_full .aposteriori 10 9 1 1 (by norm_num) (by norm_num)
   exact ⟨v, h1, (h3 rfl (by norm_num)).1⟩
+-- C09_conf_guard_full at dof = 1 in a posteriori mode: the Student branch is taken
+example : ∃ v : ℝ, StatsGen.confIntCoef (fun x : ℝ => x) (fun (x : ℝ) (n : ℤ) => x + (n : ℝ)) .aposteriori
+      (0.9:ℝ) 1 = .ok v ∧ v = (1 - 0.9) / 2 + ((1:ℤ):ℝ) := by
+  obtain ⟨v, h1, -, h3, -⟩ :=
+    C09_conf_guard_full (fun x : ℝ => x) (fun (x : ℝ) (n : ℤ) => x + (n : ℝ)) .aposteriori 0.9 1
+  exact ⟨v, h1, h3 rfl (by norm_num)⟩
 -- C09_studentized_guard_full / C09_ratio_guard_full / C09_err_obs_adj hypotheses
 example : (0:ℝ) ≤ 2 ∧ (0:ℝ) < 1000 ∧ (10:ℝ) ≠ 0 ∧ (0.15:ℝ) * 4 ≠ 0 ∧ (3:ℤ) ≠ 0 := by norm_num
 
